@@ -37,7 +37,7 @@ func init() {
 			return 1200
 		},
 		Rule: "case = random history of public editing operations (arguments drawn from the live tree) on a generated start tree; " +
-			"the structure walker and the text-vs-structure monitor run after every successful step; " +
+			"the structure walker and the text-vs-structure monitor run after every successful step, and on the result of a successful edit that leaves fewer than 3 tips (pruning down to two tips included) before the history goes back; operations include in-place refreshes of the indexes, rearrangements kept and undone after re-rootings, decorations; " +
 			"non-trivial = at least 5 successful steps of at least 4 different kinds; distinct by (start tree, op log)",
 		Assumptions: []string{
 			"only all-success histories are judged: after an operation that returned an error the history continues from a copy taken before it",
